@@ -1,7 +1,7 @@
 """Per-property configuration of ./check, loaded from tools/propcfg/<Cxx>.json.
 
 Each config: {
-  "families": [{"name": fam, "quick": n, "thorough": n, "args": [...]?}],
+  "families": [{"name": fam, "quick": n, "thorough": n, "args": [...]?, "args_quick": [...]?, "args_thorough": [...]?}],
   "hist_keys": [tag names histogrammed into evidence],
   "rule": text, "trusted_base": [extra entries], "assumptions": [...],
   "owns": {fam: [diff kinds (tag dk) of DIFF results that belong to this property]}   # "*" = all
